@@ -47,7 +47,7 @@ def bump(idgen: Any, bumps: dict[str, int]) -> None:
 
 
 GARBAGE_KINDS = ("sym", "fun", "qty", "qty1f", "qty1", "qty0f", "vec", "cs", "calc", "conv", "solve", "float_arith",
-    "const_copy", "const_copy_dim", "clone", "common_symbols")
+    "const_copy", "const_copy_dim", "clone", "common_symbols", "const_as_unit")
 
 
 def garbage(spec: Any) -> None:
@@ -115,6 +115,13 @@ def _garbage_one(i: int, kind: str, keep: list[Any]) -> None:
                 c = getattr(quantities, name, None)
                 if c is not None:
                     keep.append(Quantity(c, dimension=dimensionless))
+        elif kind == "const_as_unit":
+            from symplyphysics import convert_to, quantities
+            for name in ("speed_of_light", "boltzmann_constant", "planck", "elementary_charge", "gravitational_constant",
+                    "acceleration_due_to_gravity", "electron_rest_mass", "molar_gas_constant"):
+                c = getattr(quantities, name, None)
+                if c is not None:
+                    keep.append(convert_to(Quantity(c * 3), c))
         elif kind == "clone":
             from symplyphysics import clone_as_function, clone_as_symbol, symbols
             keep.append(clone_as_symbol(symbols.mass, subscript="1"))
